@@ -110,6 +110,68 @@ fn icmp_messages(a: &mut Acc, r: &mut Rng, n_random: u64) {
             }
         }
     }
+    // errors quoting a packet whose IP header (IPv4 options / IPv6 extension headers) leaves only 0..12 bytes of
+    // the quoted ICMP message: every header length x every tail length x first tail byte (echo request or not)
+    for t in [3u8, 4, 5, 11, 12, 1, 2] {
+        for code in [0u8, 1, 4] {
+            for ihl in 5usize..=15 {
+                for tail in 0usize..=12 {
+                    for first in [8u8, 0, 128, 13] {
+                        for proto in [1u8, 58, 6] {
+                            let mut p = vec![t, code, 0, 0, 0, 0, 0, 0];
+                            let mut ip = vec![0u8; ihl * 4];
+                            ip[0] = 0x40 | ihl as u8;
+                            ip[3] = (ihl * 4 + tail) as u8;
+                            ip[8] = 64;
+                            ip[9] = proto;
+                            ip[12..16].copy_from_slice(&[192, 0, 2, 7]);
+                            ip[16..20].copy_from_slice(&[192, 0, 2, 1]);
+                            p.extend_from_slice(&ip);
+                            let mut tl = r.bytes(tail);
+                            if tail > 0 { tl[0] = first; }
+                            p.extend_from_slice(&tl);
+                            let q = p.clone();
+                            a.case("icmp deserialize (quote behind IPv4 options)", &p, || pure::icmp_deserialize(false, Bytes::from(q)));
+                            let q = p.clone();
+                            a.case("icmp deserialize + reply encoding", &p, || pure::icmp_encode_reply(false, peer4, Bytes::from(q)));
+                            a.local.distinct_by_construction += 1;
+                        }
+                    }
+                }
+            }
+        }
+    }
+    for t in [1u8, 2, 3, 4] {
+        for n0 in [58u8, 0, 43, 60, 44, 59] {
+            for e0 in [0u8, 1, 2, 255] {
+                for tail in 0usize..=12 {
+                    for first in [128u8, 129, 0, 8] {
+                        let mut p = vec![t, 0, 0, 0, 0, 0, 0, 0];
+                        let mut ip = vec![0u8; 40];
+                        ip[0] = 0x60;
+                        ip[6] = n0;
+                        ip[7] = 64;
+                        ip[23] = 1;
+                        ip[39] = 2;
+                        p.extend_from_slice(&ip);
+                        if n0 != 58 && n0 != 59 {
+                            // one extension header that claims e0 * 8 + 8 bytes but may be cut short by the tail
+                            p.extend_from_slice(&[58, e0, 0, 0, 0, 0, 0, 0]);
+                            if e0 == 1 { p.extend_from_slice(&[0; 8]); }
+                        }
+                        let mut tl = r.bytes(tail);
+                        if tail > 0 { tl[0] = first; }
+                        p.extend_from_slice(&tl);
+                        let q = p.clone();
+                        a.case("icmp deserialize (quote behind IPv6 extension headers)", &p, || pure::icmp_deserialize(true, Bytes::from(q)));
+                        let q = p.clone();
+                        a.case("icmp deserialize + reply encoding", &p, || pure::icmp_encode_reply(true, peer6, Bytes::from(q)));
+                        a.local.distinct_by_construction += 1;
+                    }
+                }
+            }
+        }
+    }
     for _ in 0..n_random {
         let n = r.below(120) as usize;
         let mut p = r.bytes(n);
@@ -460,7 +522,7 @@ pub fn run(args: &Args) -> i32 {
         args,
         "exploration",
         "one sweep over every parser of untrusted bytes reachable through the door: IPv4/IPv6 header skipping (every version/IHL byte; extension-header chains \
-         with hostile lengths, truncated everywhere), ICMP/ICMPv6 deserialisation + reply encoding (every type byte x codes x lengths), UDP/ICMP stream \
+         with hostile lengths, truncated everywhere), ICMP/ICMPv6 deserialisation + reply encoding (every type byte x codes x lengths; errors quoting a packet behind every IPv4 option length / IPv6 extension header with 0-12 bytes of quoted message left), UDP/ICMP stream \
          decoders under random segmentation, HTTP/1.1 request/response head parsers (all strings of length 4-5 over a 14-symbol alphabet after three prefixes, \
          truncations and mutations of valid heads), ClientHello extractor (all strings of length 6-7 over 7 symbols, every length field of a real hello set to \
          0/1/max/+-1), SOCKS5 reply readers (all server byte strings of length 4-5 over 8 symbols), settings/credentials/rules/hosts files (products and \
